@@ -118,21 +118,21 @@ fn run(depth: usize, incoming: u8) {
 #[kani::stub(emit::span::TraceId::try_from_hex, trace_hex_unreachable)]
 #[kani::stub(emit::span::SpanId::try_from_hex, span_hex_unreachable)]
 #[kani::stub(emit_core::value::Value::parse, parse_unreachable)]
-pub fn c18_q_new_trace_depth0() { run(0, 0); }
+pub fn c18_t_new_trace_depth0() { run(0, 0); }
 
 #[kani::proof]
 #[kani::unwind(13)]
 #[kani::stub(emit::span::TraceId::try_from_hex, trace_hex_unreachable)]
 #[kani::stub(emit::span::SpanId::try_from_hex, span_hex_unreachable)]
 #[kani::stub(emit_core::value::Value::parse, parse_unreachable)]
-pub fn c18_q_new_trace_depth1() { run(1, 0); }
+pub fn c18_t_new_trace_depth1() { run(1, 0); }
 
 #[kani::proof]
 #[kani::unwind(13)]
 #[kani::stub(emit::span::TraceId::try_from_hex, trace_hex_unreachable)]
 #[kani::stub(emit::span::SpanId::try_from_hex, span_hex_unreachable)]
 #[kani::stub(emit_core::value::Value::parse, parse_unreachable)]
-pub fn c18_q_continued_trace_depth1() { run(1, 1); }
+pub fn c18_t_continued_trace_depth1() { run(1, 1); }
 
 #[kani::proof]
 #[kani::unwind(13)]
@@ -183,4 +183,100 @@ pub fn c18_w_twin_sampler_runs_for_children() {
         drop(g);
     });
     assert!(calls.get() == 2);
+}
+
+// ---- one-step kernels (whole span trees over the std build are slow: see the _t_ harnesses) ----------
+
+/// The sampling filter on ONE span event, from an arbitrary current traceparent: the sampler is
+/// consulted exactly once iff there is no valid current traceparent (a new trace); for a child span or a
+/// continued trace the flag is inherited and the sampler never runs; the verdict is the sampled flag.
+#[kani::proof]
+#[kani::unwind(13)]
+#[kani::stub(emit::span::TraceId::try_from_hex, trace_hex_unreachable)]
+#[kani::stub(emit::span::SpanId::try_from_hex, span_hex_unreachable)]
+#[kani::stub(emit_core::value::Value::parse, parse_unreachable)]
+#[kani::stub(<u128 as emit_core::value::FromValue>::from_value, u128_from_value_unreachable)]
+#[kani::stub(<u64 as emit_core::value::FromValue>::from_value, u64_from_value_unreachable)]
+pub fn c18_q_filter_step() {
+    let calls = Cell::new(0u32);
+    let verdict: bool = kani::any();
+    let filter = TraceparentFilter::new_with_sampler(|_c: &SpanCtxt| { calls.set(calls.get() + 1); verdict });
+    let active: bool = kani::any();
+    let sampled: bool = kani::any();
+    let t: u128 = kani::any();
+    let sp: u64 = kani::any();
+    let new_sp: u64 = kani::any();
+    kani::assume(t != 0 && sp != 0 && new_sp != 0 && new_sp != sp);
+    let span_ctxt = SpanCtxt::new(TraceId::from_u128(t), if active { SpanId::from_u64(sp) } else { None }, SpanId::from_u64(new_sp));
+    let check = || {
+        let evt = emit::Span::new(Path::new_raw("m"), "s", Empty, span_ctxt);
+        let got = filter.matches(&evt);
+        if active {
+            assert!(calls.get() == 0, "the sampler never runs for child spans or continued traces");
+            assert!(got == sampled, "the incoming / parent flag is inherited");
+        } else {
+            assert!(calls.get() == 1, "the sampler runs exactly once for a new trace, at its root span");
+            assert!(got == verdict);
+        }
+        // a non-span event is never sampled out by this filter
+        assert!(filter.matches(emit::Event::new(Path::new_raw("m"), emit::Template::literal("e"), Empty, Empty)));
+    };
+    if active {
+        Traceparent::new(TraceId::from_u128(t), SpanId::from_u64(sp), if sampled { TraceFlags::SAMPLED } else { TraceFlags::EMPTY }).push().call(check);
+    } else {
+        check();
+    }
+    kani::cover!(active && !sampled, "inside an unsampled trace");
+    kani::cover!(!active && verdict, "new sampled trace");
+}
+
+/// The trace-context Ctxt on ONE frame, from an arbitrary current traceparent: pushing span ids makes
+/// (trace id, that span id, inherited flag) current inside the frame, a disabled frame reports
+/// unsampled, and leaving the frame restores the previous traceparent; ambient props expose the ids
+/// only when sampled.
+#[kani::proof]
+#[kani::unwind(13)]
+#[kani::stub(emit::span::TraceId::try_from_hex, trace_hex_unreachable)]
+#[kani::stub(emit::span::SpanId::try_from_hex, span_hex_unreachable)]
+#[kani::stub(emit_core::value::Value::parse, parse_unreachable)]
+#[kani::stub(<u128 as emit_core::value::FromValue>::from_value, u128_from_value_unreachable)]
+#[kani::stub(<u64 as emit_core::value::FromValue>::from_value, u64_from_value_unreachable)]
+pub fn c18_q_ctxt_frame_step() {
+    let arr = ArrCtxt::new();
+    let ctxt = TraceparentCtxt::new(&arr);
+    let active: bool = kani::any();
+    let sampled: bool = kani::any();
+    let t: u128 = kani::any();
+    let sp: u64 = kani::any();
+    let new_sp: u64 = kani::any();
+    kani::assume(t != 0 && sp != 0 && new_sp != 0 && new_sp != sp);
+    let disabled: bool = kani::any();
+    let step = || {
+        let before = current();
+        let props = SpanCtxt::new(TraceId::from_u128(t), if active { SpanId::from_u64(sp) } else { None }, SpanId::from_u64(new_sp));
+        let frame = if disabled { Frame::disabled(&ctxt, props) } else { Frame::push(&ctxt, props) };
+        assert!(current() == before, "creating a frame does not change the current traceparent");
+        frame.call(|| {
+            let cur = current();
+            let want_sampled = !disabled && (if active { sampled } else { true });
+            assert!(cur.trace == t && cur.span == new_sp, "inside the frame the traceparent names the trace and the innermost span");
+            assert!(cur.sampled == want_sampled, "flag inherited; a disabled frame is unsampled");
+            let seen = SpanCtxt::current(&ctxt);
+            if want_sampled {
+                assert!(seen.trace_id().map(|x| x.to_u128()) == Some(t) && seen.span_id().map(|x| x.to_u64()) == Some(new_sp));
+                assert!(seen.span_parent().map(|x| x.to_u64()) == if active { Some(sp) } else { None });
+            } else {
+                assert!(seen.span_id().is_none(), "inside an unsampled trace no ids are ambient");
+            }
+        });
+        assert!(current() == before, "the previous traceparent is restored");
+    };
+    if active {
+        Traceparent::new(TraceId::from_u128(t), SpanId::from_u64(sp), if sampled { TraceFlags::SAMPLED } else { TraceFlags::EMPTY }).push().call(step);
+    } else {
+        step();
+    }
+    assert!(current().trace == 0);
+    kani::cover!(active && sampled && !disabled, "child frame in a sampled trace");
+    kani::cover!(disabled, "disabled frame");
 }
